@@ -512,7 +512,13 @@ impl Serialize for Extensions {
             ExtensionsVariantV1::Causal(extensions) => {
                 seq.serialize_element(&extensions.log_id)?;
                 seq.serialize_element(&extensions.timestamp)?;
-                seq.serialize_element(&extensions.previous)?;
+
+                // Hash sets have no stable iteration order. Encode the hashes sorted to get a
+                // deterministic encoding, otherwise the header's hash and signature would change
+                // whenever it gets decoded and encoded again.
+                let mut previous: Vec<&Hash> = extensions.previous.iter().collect();
+                previous.sort();
+                seq.serialize_element(&previous)?;
             }
         }
 
